@@ -310,6 +310,33 @@ def shared_helper_family():
     return out
 
 
+# Grammars OUTSIDE the well-formed class the random generator draws from, on which the generated parser is known to deviate from
+# PEG semantics (known_findings.json).  Each: id, grammar rules (text), rule, tokens, what PEG semantics gives (worked out by hand:
+# these grammars are outside what the reference interpreter supports), and the predicate "the deviation is exactly the recorded one".
+KNOWN_GRAMMARS = [
+    ("KF-C17-hidden-left-recursion", "start: a=pre b=a ENDMARKER { (a, b) }\npre: x='x'* { ('pre', x) }\na: pre a 'y' { 'rec' } | 'z' { 'z' }\n", "start", ["z", "y"], "ok", ("recursion",)),
+    ("KF-C17-hidden-left-recursion", "start: a ENDMARKER { a }\na: !'x' a 'y' { 'r' } | 'z' { 'z' }\n", "start", ["z", "y"], "ok", ("recursion",)),
+    ("KF-C17-leader-empty-success", "start: a 'y' { a }\na: a 'x' { 'r' } | &'y' { 'e' }\n", "start", ["y"], "ok", ("fail",)),
+    ("KF-C17-forced-item-in-inlined-choice", "start: a { a }\na: 'y' | &&'x'\n", "start", ["x", "y"], ("ok", "x", 1), ("ok", "y", 2)),
+]
+
+
+def check_known_grammar(fid, rules, rule, toks, want, recorded):
+    try:
+        cls, _code, _pg = build_parser_class(G.HEADER + rules)
+    except Exception as e:  # noqa: BLE001
+        return {"fid": fid, "rules": rules, "got": ("generator-refused", f"{type(e).__name__}: {e}"[:120]), "want": want, "recorded": recorded}
+    import sys
+
+    old = sys.getrecursionlimit()
+    sys.setrecursionlimit(3000)
+    try:
+        got = run_impl(cls, rule, toks)
+    finally:
+        sys.setrecursionlimit(old)
+    return {"fid": fid, "rules": rules, "rule": rule, "tokens": toks, "got": got, "want": want, "recorded": recorded}
+
+
 def run(rep, tier, pool, variants=("shipped",)):
     rep.rule = (
         "random well-formed grammars (1-4 rules, 1-3 alternatives, items: tokens, rule refs, groups, ? * + gather & ! ~ && , memo flags, direct and "
@@ -377,6 +404,22 @@ def run(rep, tier, pool, variants=("shipped",)):
             {"property": "C17", "grammar": text, "cases": o["cases"], "generated_code_tail": o.get("code"), "oracle": "reference PEG interpreter harness/gen/grammars.py:Ref"},
         )
     rep.extra["token_strings_x_rules"] = total_strings
+    # the recorded deviations on grammars outside the well-formed class: still exactly what was recorded?
+    for o in pool.call("harness.props.c17:check_known_grammar", list(KNOWN_GRAMMARS), timeout=60):
+        if o.get("k") in ("hang", "crash", "worker-exc", "not-run"):
+            rep.count("infra:" + o["k"])
+            continue
+        got = tuple(o["got"]) if isinstance(o["got"], (list, tuple)) else o["got"]
+        want = o["want"]
+        conforms = (got[0] == want) if isinstance(want, str) else (got == tuple(want))
+        rep.case("known-grammar:" + o["rules"], True)
+        if conforms:
+            continue  # the generator now gives what PEG semantics gives (the finding is gone)
+        if got == tuple(o["recorded"]):
+            rep.known(o["fid"], short(o["rules"].replace("\n", " ; "), 70))
+        else:
+            rep.violation(f"C17 generated parser != PEG semantics on a recorded grammar, in a NEW way: {o['fid']}: parser {short(repr(got), 50)} recorded {short(repr(o['recorded']), 40)}",
+                          {"property": "C17", "grammar": o["rules"], "rule": o.get("rule"), "tokens": o.get("tokens"), "generated_parser": repr(got), "peg_semantics": repr(want), "recorded_deviation": repr(o["recorded"])})
     rep.extra.setdefault("correspondence", {})["generated-code-IR"] = dict(model_stats, disagreements=len(model_bad))
     rep.obligation(
         f"corr:generated-code-IR (the Lean model run on the translated IR of {model_stats['grammars']} freshly generated parsers == those parsers: accept/fail/raise and end position on {model_stats['requests']} rule x token-string requests, {model_stats['undecided']} undecided)",
